@@ -68,6 +68,23 @@ fn c15(line: &str) -> String {
     run_lines(&mut buf)
 }
 
+/// decode_eof only, until None, on the whole input: what a Framed does when the transport reports EOF before the
+/// buffered bytes were ever decoded
+fn c15eof(line: &str) -> String {
+    let mut buf = BytesMut::from(&unhex(line)[..]);
+    let mut codec = LinesCodec::default();
+    let bound = buf.len() + 3;
+    let mut b = Vec::new();
+    for _ in 0..bound {
+        match codec.decode_eof(&mut buf) {
+            Ok(Some(s)) => b.push(Ok(s)),
+            Ok(None) => break,
+            Err(_) => b.push(Err(())),
+        }
+    }
+    format!("{}|{}", show_items(&b), hex(&buf[..]))
+}
+
 fn c15enc(line: &str) -> String {
     let mut codec = LinesCodec::default();
     let mut buf = BytesMut::new();
@@ -342,6 +359,16 @@ impl<C: Decoder> Decoder for Counting<C> {
     }
 }
 
+/// One of the state-preserving conversions of `Framed`, chosen by `k`: all of them must carry both buffers and the
+/// flags over unchanged.
+fn convert<T, U>(f: Framed<T, U>, k: usize) -> Framed<T, U> {
+    match k % 3 {
+        0 => Framed::from_parts(f.into_parts()),
+        1 => f.into_map_io(|io| io),
+        _ => f.into_map_codec(|c| c),
+    }
+}
+
 // ---- c13 ----
 fn io_item(e: &io::Error, decode_tag: &str) -> String {
     if e.kind() == MOCK_ERR {
@@ -353,13 +380,20 @@ fn io_item(e: &io::Error, decode_tag: &str) -> String {
     }
 }
 
-fn run_c13<C: Decoder>(
+fn run_c13<C: Decoder + Unpin>(
     codec: C,
+    conv: bool,
     toks: &[&str],
     show: fn(Result<C::Item, C::Error>) -> String,
 ) -> String {
     let mut rd = VecDeque::new();
     let mut nbytes = 0;
+    // a leading b<hex>: build the Framed from parts with a pre-filled read buffer
+    let (pre, toks) = match toks.first() {
+        Some(t) if t.as_bytes()[0] == b'b' => (Some(unhex(&t[1..])), &toks[1..]),
+        _ => (None, toks),
+    };
+    nbytes += pre.as_ref().map_or(0, |p| p.len());
     for t in toks {
         rd.push_back(match t.as_bytes()[0] {
             b'c' => {
@@ -375,7 +409,14 @@ fn run_c13<C: Decoder>(
     }
     let fuel = toks.len() + nbytes + 8;
     let mock = Mock { rd, ..Mock::default() };
-    let mut framed = Framed::new(mock, Counting { inner: codec, calls: 0 });
+    let mut framed = match pre {
+        None => Framed::new(mock, Counting { inner: codec, calls: 0 }),
+        Some(p) => Framed::from_parts(actix_codec::FramedParts::with_read_buf(
+            mock,
+            Counting { inner: codec, calls: 0 },
+            BytesMut::from(&p[..]),
+        )),
+    };
     let waker = Waker::from(Arc::new(NoopWake));
     let mut cx = Context::from_waker(&waker);
     let mut out: Vec<String> = Vec::new();
@@ -392,6 +433,9 @@ fn run_c13<C: Decoder>(
             }
         }
         polls += 1;
+        if conv {
+            framed = convert(framed, polls);
+        }
         let before = framed.codec_ref().calls;
         let r = Pin::new(&mut framed).poll_next(&mut cx);
         let calls = framed.codec_ref().calls - before;
@@ -419,6 +463,10 @@ fn run_c13<C: Decoder>(
 
 fn c13(line: &str) -> String {
     let (codec, script) = line.split_once(';').expect("c13: <codec>;<script>");
+    let (codec, conv) = match codec.strip_suffix("+x") {
+        Some(c) => (c, true),
+        None => (codec, false),
+    };
     let toks = split_nonempty(script, ',');
     fn show_lp(it: Result<Vec<u8>, LpError>) -> String {
         match it {
@@ -430,16 +478,16 @@ fn c13(line: &str) -> String {
         }
     }
     match codec {
-        "lines" => run_c13(LinesCodec::default(), &toks, |it| match it {
+        "lines" => run_c13(LinesCodec::default(), conv, &toks, |it| match it {
             Ok(s) => format!("IO:{}", blob(s.as_bytes())),
             Err(e) => io_item(&e, "E"),
         }),
-        "bytes" => run_c13(BytesCodec, &toks, |it| match it {
+        "bytes" => run_c13(BytesCodec, conv, &toks, |it| match it {
             Ok(b) => format!("IO:{}", blob(&b[..])),
             Err(e) => io_item(&e, "?"),
         }),
-        "lp" => run_c13(LpCodec { default_eof: false }, &toks, show_lp),
-        "lpd" => run_c13(LpCodec { default_eof: true }, &toks, show_lp),
+        "lp" => run_c13(LpCodec { default_eof: false }, conv, &toks, show_lp),
+        "lpd" => run_c13(LpCodec { default_eof: true }, conv, &toks, show_lp),
         c => panic!("unknown codec {c}"),
     }
 }
@@ -452,6 +500,7 @@ fn payload(len: usize, seed: usize) -> Vec<u8> {
 
 fn run_c14<C, I>(
     codec: C,
+    conv: bool,
     fields: &[&str],
     make: fn(Vec<u8>) -> I,
     classify: fn(&<C as Encoder<I>>::Error) -> &'static str,
@@ -487,7 +536,10 @@ where
     let waker = Waker::from(Arc::new(NoopWake));
     let mut cx = Context::from_waker(&waker);
     let mut out: Vec<String> = Vec::new();
-    for tok in split_nonempty(fields[3], ',') {
+    for (k, tok) in split_nonempty(fields[3], ',').into_iter().enumerate() {
+        if conv {
+            framed = convert(framed, k);
+        }
         let r: Poll<Result<(), <C as Encoder<I>>::Error>> = match tok.as_bytes()[0] {
             b'r' => Sink::<I>::poll_ready(Pin::new(&mut framed), &mut cx),
             b'f' => Sink::<I>::poll_flush(Pin::new(&mut framed), &mut cx),
@@ -533,15 +585,20 @@ fn classify_io(e: &io::Error) -> &'static str {
 fn c14(line: &str) -> String {
     let f: Vec<&str> = line.split(';').collect();
     assert_eq!(f.len(), 5, "c14: expected 5 fields");
-    match f[0] {
+    let (codec, conv) = match f[0].strip_suffix("+x") {
+        Some(c) => (c, true),
+        None => (f[0], false),
+    };
+    match codec {
         "lines" => run_c14::<LinesCodec, String>(
             LinesCodec::default(),
+            conv,
             &f[1..],
             |p| String::from_utf8(p).unwrap(),
             classify_io,
         ),
-        "bytes" => run_c14::<BytesCodec, Bytes>(BytesCodec, &f[1..], Bytes::from, classify_io),
-        "lp" => run_c14::<LpCodec, Vec<u8>>(LpCodec { default_eof: false }, &f[1..], |p| p, |e| match e {
+        "bytes" => run_c14::<BytesCodec, Bytes>(BytesCodec, conv, &f[1..], Bytes::from, classify_io),
+        "lp" => run_c14::<LpCodec, Vec<u8>>(LpCodec { default_eof: false }, conv, &f[1..], |p| p, |e| match e {
             LpError::Io(e) => classify_io(e),
             LpError::TooLong => "enc",
             _ => "other",
@@ -555,6 +612,7 @@ fn main() {
     let f: fn(&str) -> String = match mode.as_str() {
         "c15" => c15,
         "c15enc" => c15enc,
+        "c15eof" => c15eof,
         "c13" => c13,
         "c14" => c14,
         m => panic!("unknown mode {m}"),
